@@ -53,20 +53,6 @@ func (rf *reformer) alias(op *operation) {
 				continue
 			}
 			if rf.chance(0.4) {
-				if s.alias != "" && rf.chance(0.3) {
-					// drop a root alias only when the name is unique among the siblings
-					uniq := true
-					for _, o := range *sels {
-						if o != s && o.kind == nField && o.key() == s.name {
-							uniq = false
-						}
-					}
-					if uniq && owner != nil {
-						s.alias = ""
-						n++
-						continue
-					}
-				}
 				s.alias = fmt.Sprintf("a%d", s.origin)
 				n++
 			}
